@@ -227,28 +227,31 @@ Fixpoint doc_open (vs : list lview) : string :=
 
 (* the upward walk of _get_comment_ending_at_line; input: the lines above, nearest first, WITHOUT line 0.
    stop_other (Gen: FIX_WALK): the walk also ends at a line that is neither empty nor a comment *)
-Definition walk_stop (stop_other : bool) (v : lview) : bool :=
-  v_isdef v || v_quote v || (stop_other && negb (v_empty v || v_iscomment v)).
+(* stop_quote (Gen: walk_stops_at_quote_lines_gen): it ends at every line that holds a triple-quote token *)
+Definition walk_stop (stop_other stop_quote : bool) (v : lview) : bool :=
+  v_isdef v || (stop_quote && v_quote v) || (stop_other && negb (v_empty v || v_iscomment v)).
 
-Fixpoint walk_up (stop_other : bool) (vs : list lview) : list lview :=
+Fixpoint walk_up (stop_other stop_quote : bool) (vs : list lview) : list lview :=
   match vs with
   | [] => []
-  | v :: r => if walk_stop stop_other v then [] else v :: walk_up stop_other r
+  | v :: r => if walk_stop stop_other stop_quote v then [] else v :: walk_up stop_other stop_quote r
   end.
 
 (* above_rev: all the lines above the field, nearest first (its last element is line 0, never examined) *)
-Definition comment_above (stop_other : bool) (above_rev : list lview) : string :=
-  strip (join_nl (map v_comment (filter (fun v => negb (v_empty v)) (rev (walk_up stop_other (removelast above_rev)))))).
+Definition comment_above (stop_other stop_quote : bool) (above_rev : list lview) : string :=
+  strip (join_nl (map v_comment (filter (fun v => negb (v_empty v))
+                                        (rev (walk_up stop_other stop_quote (removelast above_rev)))))).
 
 Definition defines (f : string) (v : lview) : bool :=
   v_isdef v && match v_defname v with Some n => String.eqb n f | None => false end.
 
 (* the loop of _get_attribute_docstring: first field-definition line that defines f *)
-Fixpoint find_field (stop_other : bool) (f : string) (above_rev vs : list lview) : option (string * string * string) :=
+Fixpoint find_field (stop_other stop_quote : bool) (f : string) (above_rev vs : list lview)
+  : option (string * string * string) :=
   match vs with
   | [] => None
-  | v :: r => if defines f v then Some (comment_above stop_other above_rev, v_inline v, doc_open r)
-              else find_field stop_other f (v :: above_rev) r
+  | v :: r => if defines f v then Some (comment_above stop_other stop_quote above_rev, v_inline v, doc_open r)
+              else find_field stop_other stop_quote f (v :: above_rev) r
   end.
 
 (* ---------- source text -> code_lines ---------- *)
@@ -284,6 +287,7 @@ Section Class.
   Variables TRIPLE_S TRIPLE_D : string.
   Variable SPLIT_STEP : option ascii -> ascii -> sstep.
   Variable STOP_OTHER : bool.     (* Gen FIX_WALK: the comment walk stops at code lines *)
+  Variable STOP_QUOTE : bool.     (* Gen walk_stops_at_quote_lines_gen *)
   Variable ENTRY_ALONE : bool.    (* Gen FIX_ENTRY: a class that only documents the field in its docstring still answers *)
 
   Definition code_lines (k : klass) : option (list string) :=
@@ -301,7 +305,7 @@ Section Class.
     end.
 
   Definition scan_lines (lines : list string) (f : string) : option (string * string * string) :=
-    find_field STOP_OTHER f [] (map (view HASH COLON EQUALS TRIPLE_S TRIPLE_D SPLIT_STEP) lines).
+    find_field STOP_OTHER STOP_QUOTE f [] (map (view HASH COLON EQUALS TRIPLE_S TRIPLE_D SPLIT_STEP) lines).
 
   (* _get_attribute_docstring(cls, f) *)
   Definition scan_class (k : klass) (f : string) : option parts :=
